@@ -170,7 +170,10 @@ fn check_shutdown(c: &ConnCase, b: &Built, m: &ConnModel, k: usize) -> Result<(b
     // A management reply that parse_request was still writing may be cut off when the idle
     // connection stops (the statement only protects requests whose handler is running).
     vensure!(view.complete_len == view.total_len || !in_flight, "conn-partial-record", "{ctx} a request was in flight, yet the byte log ends with an incomplete record");
-    let g = conn::check_grammar(&view, &ids, &|_| false).map_err(|f| Fail::new(f.sig, format!("{ctx} {}", f.msg)))?;
+    // (requests that never reached a handler may be *rejected* when the connection stops: an
+    // EndRequest with a protocol status other than RequestComplete and no output, see below)
+    let n_inv = r.invocations.len();
+    let g = conn::check_grammar(&view, &ids, &|i| i >= n_inv).map_err(|f| Fail::new(f.sig, format!("{ctx} {}", f.msg)))?;
     let mut expected_ends = 0;
     for (i, inv) in r.invocations.iter().enumerate() {
         let me = &m.reqs[i];
@@ -192,7 +195,10 @@ fn check_shutdown(c: &ConnCase, b: &Built, m: &ConnModel, k: usize) -> Result<(b
         vensure!(g.data[i].0 == so && g.data[i].1 == se, "conn-stdout-content", "{ctx} request #{i}: output records differ from the handler's successful writes");
         vensure!(inv.read_errors.is_empty() && inv.write_errors.is_empty(), "conn-unexpected-io-error", "{ctx} request #{i}: I/O errors {:?} {:?}", inv.read_errors, inv.write_errors);
     }
-    vensure!(g.ended == expected_ends, "conn-endrequest-count", "{ctx} {} EndRequest records, {} invocations returned a status", g.ended, expected_ends);
+    for k in expected_ends..g.ended {
+        let rejected = g.end_status[k].0 != wire::ST_COMPLETE && g.data.get(k).map_or(true, |d| d.2 == 0) && k >= n_inv;
+        vensure!(rejected, "conn-endrequest-count", "{ctx} {} EndRequest records, {} invocations returned a status; EndRequest #{k} {:?} is not a rejection of a request that never reached a handler", g.ended, expected_ends, g.end_status[k]);
+    }
     model::match_replies_prefix(&m.e1, &g.mgmt).map_err(|e| Fail::new("conn-mgmt-replies", format!("{ctx} {e}")))?;
     Ok((in_flight, !r.task_finished_at_request && r.inv_at == r.ends_at))
 }
